@@ -29,4 +29,7 @@ def build(ctx: RunCtx) -> Prop:
         not_decided="liveness ('reaches a final status', 'body completed at least once') needs fairness of recovery and surviving runners and is outside "
                     "this family; a process kill is only expressible as 'the state between two effects' (step windows listed as known findings).",
         min_obligations=100,
+        # runner side (verified in the C11 module's registry): kill-and-reroute ends final or available-and-queued; the thread runner's loop
+        # iteration takes over every invocation its poll claimed (drains the generator, so that the poll's own re-routing code runs)
+        parts=[("contracts.c11", ["pynenc.runner.base_runner:BaseRunner._kill_and_reroute", "pynenc.runner.thread_runner:ThreadRunner.runner_loop_iteration"])],
     )
